@@ -3,7 +3,7 @@
 import datetime
 import os
 
-from .. import core, explore, observe, scen
+from .. import core, explore, gen, observe, scen
 
 CONFIG = {
     "level": "exploration",
@@ -17,7 +17,7 @@ CONFIG = {
                    "function of its input) are not generated. lastmodificationdate is not read back by the tool's reader and "
                    "is not listed by the property. Control characters are outside the quantifier."),
     "technique": "deterministic simulation: seeded histories with hostile text; tool reader vs independent XML reader vs inputs",
-    "quick": {"runs": 320, "budget_s": 60},
+    "quick": {"runs": 640, "budget_s": 90},
     "thorough": {"runs": 6000, "budget_s": 540},
     "rule": ("one run = random world + 3..12 operations; one evaluation = one XML file read back by both readers. Distinct = "
              "(file kind, #records, #references, has previousPath, #patterns, #authors, set of name classes present: "
@@ -29,7 +29,17 @@ WEIGHTS = {"p_create": 0.55, "p_edit": 0.2, "p_ro": 0.0, "nested": 0.5, "sf": 0.
 
 
 def generate(rng, tier):
-    return explore.generate(rng, tier, WEIGHTS, hostile=0.55)
+    sc = explore.generate(rng, tier, WEIGHTS, hostile=0.55)
+    if rng.random() < 0.35:
+        # a rename of a file with a hostile name followed by create -dr: previous paths with spaces / specials
+        src = rng.choice([" leading", "trailing ", "amp&ersand.txt", "less<than", "ünï cödé.txt", "with space.txt", "]]>cdata.txt"])
+        dst = rng.choice(["renamed ", " r2", "ren&<>.mov", "日本.mov"])
+        sc["world"]["tree"].setdefault(src, {"t": "f", "c": gen.unique_content(rng)})
+        fm = gen.fmt_args(gen.pick_formats(rng, 1, 2))
+        sc["ops"] += [scen.cmd("create", "@R", *fm), {"op": "advance", "us": 1_000_000},
+                      {"op": "rename", "src": src, "dst": dst, "fault": "rename_file"},
+                      scen.cmd("create", "@R", "-dr", *fm)]
+    return sc
 
 
 def _tool_read(cs, paths):
@@ -67,7 +77,10 @@ def _tool_read(cs, paths):
                                  for e in mh.hash_entries]}
                 by_path = hl.find_media_hash_for_path(mh.path)
                 by_prev = hl.find_media_hash_for_path(mh.previous_path) if mh.previous_path else by_path
-                r["lookup_ok"] = by_path is mh and by_prev is mh
+                # two records may legitimately claim the same previous path (e.g. identical empty folders); the lookup
+                # by previous path then has to resolve to one of them
+                r["lookup_ok"] = by_path is mh and by_prev is not None and (
+                    by_prev is mh or by_prev.previous_path == mh.previous_path)
                 recs.append(r)
             d["records"] = recs
             d["references"] = [{"path": r.path, "c4": r.reference_hash} for r in hl.hash_list_references]
